@@ -148,6 +148,12 @@ func shapeTerms(ver *common.VersionedTransaction) (string, string) {
 	return vh.List(ins, "ikind"), vh.List(outs, "Z")
 }
 
+// snapN prints a snapshot hash with its real value: CONSENSUSSNAPSHOT keys are
+// (timestamp, snapshot hash) and readLastConsensusSnapshot takes the greatest
+// key, so between records of equal timestamp the byte order of the snapshot
+// hashes decides which one is "last"; renaming would lose that order.
+func snapN(h crypto.Hash) string { return vh.BytesAsN(h[:]) }
+
 // ids renames hashes to small numbers (the model only compares them).
 type ids struct{ m map[crypto.Hash]uint64 }
 
@@ -405,7 +411,7 @@ func recTerms(x *ids, rs []rec) string {
 			return vh.Some(x.n(*h))
 		}
 		out = append(out, fmt.Sprintf("{| cr_ts := %s; cr_snap := %s; cr_txs := %s; cr_ref := %s; cr_next := %s |}",
-			vh.ZU(r.ts), x.n(r.snap), vh.List(txs, "N"), opt(r.ref), opt(r.next)))
+			vh.ZU(r.ts), snapN(r.snap), vh.List(txs, "N"), opt(r.ref), opt(r.next)))
 	}
 	return vh.List(out, "crec")
 }
@@ -533,7 +539,7 @@ func runChain(c *vh.Ctx, cs Case) {
 		isMint := len(ver.Inputs) == 1 && ver.Inputs[0].Mint != nil
 		isGen := len(ver.Inputs) == 1 && ver.Inputs[0].Genesis != nil
 		opsT = append(opsT, fmt.Sprintf("({| co_ts := %s; co_snap := %s; co_txs := %s; co_tx := %s; co_refs := %s; co_mint := %s; co_out0 := %s; co_genesis := %s |}, %s)",
-			vh.ZU(ts), x.n(snap.Hash), vh.List(stx, "N"), x.n(ver.PayloadHash()), vh.List(refs, "N"),
+			vh.ZU(ts), snapN(snap.Hash), vh.List(stx, "N"), x.n(ver.PayloadHash()), vh.List(refs, "N"),
 			vh.Bool(isMint), out0, vh.Bool(isGen), resTerm(pan, werr)))
 		if !cs.Genesis {
 			if why := chainOracle(readRecords(f)); why != "" {
